@@ -13,11 +13,16 @@ Proved as well: x.Equals(y) holds exactly when wire.ValuesAreEqual(x.ToWire(), y
 schema with pairwise different field ids, every type and every two decoded values (`equals_iff_wire_equal`;
 induction over types, with the pigeonhole lemma for the one-directional loops on both sides, "last entry
 wins" of the hashable-key map loop, and the field-map comparison of structs).
-Not proved (harness oracle on the implementation instead): agreement with an INDEPENDENT structural
-comparison of the two logical values (that comparison lives in the Go harness).
+Proved at wire level, for ARBITRARY wire values (`wclean`: no NaN, no repeated set items or map keys; structs
+may repeat field identifiers): `wire.ValuesAreEqual` is an equivalence relation (`wire_equal_refl/symm/trans`)
+and holds exactly when an independent statement of "the same logical value" holds (`wire_equal_iff_same_logical_value`;
+`specEq` tests no lengths or counts and looks both ways). The Go harness has its own comparison as well.
+Not proved: that every `ToWire` image of a decoded value is `wclean` at the same fuel (the two halves are
+joined by the correspondence: the harness feeds both with the same values).
 -/
 import ThriftVerif.Schema.EqualsProofs
 import ThriftVerif.Schema.EqWireProofs
+import ThriftVerif.Schema.WireEquivProofs
 
 namespace ThriftVerif.Properties.C14
 open ThriftVerif.Wire ThriftVerif.Schema
@@ -64,6 +69,63 @@ theorem repeated_field_ids :
     wireEq 3 (.struct [(1, .i32 7), (2, .i32 9)]) (.struct [(1, .i32 7), (1, .i32 7)]) = false ∧
     wireEq 3 (.struct [(1, .i32 9), (1, .i32 7)]) (.struct [(1, .i32 7)]) = true ∧
     wireEq 3 (.struct [(1, .i32 7)]) (.struct [(1, .i32 9), (1, .i32 7)]) = true := by
+  decide
+
+/-- `wire.ValuesAreEqual` is reflexive on every wire value without NaN, repeated set items or repeated map keys. -/
+theorem wire_equal_refl (fuel : Nat) (x : WValue) (hx : wclean fuel x = true) : wireEq fuel x x = true :=
+  (wireEq_equivOn fuel).refl x hx
+
+/-- … symmetric — although the set and map loops look one way only and the struct case compares the number
+of different identifiers and one direction (before the repair of D87: the lengths of the field lists, and
+symmetry failed: `old_struct_rule_not_symmetric`). -/
+theorem wire_equal_symm (fuel : Nat) (x y : WValue) (hx : wclean fuel x = true) (hy : wclean fuel y = true)
+    (h : wireEq fuel x y = true) : wireEq fuel y x = true :=
+  (wireEq_equivOn fuel).symm x y hx hy h
+
+/-- … and transitive. -/
+theorem wire_equal_trans (fuel : Nat) (x y z : WValue)
+    (hx : wclean fuel x = true) (hy : wclean fuel y = true) (hz : wclean fuel z = true)
+    (h1 : wireEq fuel x y = true) (h2 : wireEq fuel y z = true) : wireEq fuel x z = true :=
+  (wireEq_equivOn fuel).trans x y z hx hy hz h1 h2
+
+/-- `wire.ValuesAreEqual` holds exactly when the independent structural comparison of the two logical
+values says so (`specEq`: lists item by item, sets and maps with every item / entry of either side present
+on the other, structs with every identifier of either side denoting related fields; no hashing, no length
+or count tests). -/
+theorem wire_equal_iff_same_logical_value (fuel : Nat) (x y : WValue)
+    (hx : wclean fuel x = true) (hy : wclean fuel y = true) :
+    wireEq fuel x y = true ↔ specEq fuel x y = true := by
+  rw [wireEq_eq_specEq fuel x y hx hy]
+
+/-- Non-vacuity: a struct that repeats an identifier, holding a set, a map with struct keys and a list, is
+`wclean`; it is equal to a permuted re-arrangement of itself and different from a perturbed one — both
+sides of the equivalence computed. -/
+example :
+    let a : WValue := .struct [(1, .i32 9), (2, .set 8 [.i32 1, .i32 2]), (1, .i32 7),
+      (3, .map 12 4 [(.struct [(1, .i32 1)], .double 0), (.struct [(1, .i32 2)], .double 0x8000000000000000)]),
+      (4, .list 11 [.binary [1], .binary []])]
+    let b : WValue := .struct [(4, .list 11 [.binary [1], .binary []]), (1, .i32 7),
+      (3, .map 12 4 [(.struct [(1, .i32 2)], .double 0), (.struct [(1, .i32 1)], .double 0)]),
+      (2, .set 8 [.i32 2, .i32 1])]
+    let c : WValue := .struct [(4, .list 11 [.binary [], .binary [1]]), (1, .i32 7),
+      (3, .map 12 4 [(.struct [(1, .i32 2)], .double 0), (.struct [(1, .i32 1)], .double 0)]),
+      (2, .set 8 [.i32 2, .i32 1])]
+    wclean 4 a = true ∧ wclean 4 b = true ∧ wclean 4 c = true ∧
+      wireEq 4 a b = true ∧ specEq 4 a b = true ∧ wireEq 4 b a = true ∧
+      wireEq 4 a c = false ∧ specEq 4 a c = false := by
+  decide
+
+/-- The struct rule before the repair of finding D87 (`len(Fields)` compared, then the left field map
+against the right one) is not symmetric: the reason `wire_equal_symm` needs the number of different
+identifiers. -/
+theorem old_struct_rule_not_symmetric :
+    let old (fa fb : List (UInt16 × WValue)) : Bool :=
+      fa.length == fb.length && fa.all fun f =>
+        match lookupLast f.1 fa, lookupLast f.1 fb with
+        | some lv, some rv => wireEq 2 lv rv
+        | _, _ => false
+    old [(1, .i32 7), (1, .i32 7)] [(1, .i32 7), (2, .i32 9)] = true ∧
+    old [(1, .i32 7), (2, .i32 9)] [(1, .i32 7), (1, .i32 7)] = false := by
   decide
 
 /-- Lists are order-sensitive, sets are not. -/
